@@ -303,6 +303,13 @@ func (b *BlockList) readBlocklists() error {
 }
 
 func (b *BlockList) parseHostFile(file *os.File) error {
+	// The local file is the persisted form of the in-memory list the
+	// API edits: every entry is kept, even one another entry covers.
+	// Dropping it would make a restart change what a later removal of
+	// the covering entry unblocks. Downloaded lists keep skipping
+	// redundant entries, which is what keeps them small in memory.
+	keepCovered := filepath.Base(file.Name()) == "local"
+
 	scanner := bufio.NewScanner(file)
 	for scanner.Scan() {
 		line := scanner.Text()
@@ -338,7 +345,7 @@ func (b *BlockList) parseHostFile(file *os.File) error {
 				break
 			}
 			canonical := dns.CanonicalName(n)
-			if !b.Exists(canonical) {
+			if keepCovered || !b.Exists(canonical) {
 				b.set(canonical)
 			}
 		}
